@@ -682,7 +682,7 @@ func writeChunkedSegment(ctx context.Context, log *slog.Logger, w http.ResponseW
 	if err != nil {
 		return fmt.Errorf("convertToLive: %w", err)
 	}
-	if so.seg == nil {
+	if so.seg == nil && !isImage(segmentPart) {
 		return fmt.Errorf("no segment data for chunked segment")
 	}
 
@@ -690,7 +690,10 @@ func writeChunkedSegment(ctx context.Context, log *slog.Logger, w http.ResponseW
 	if isImage(segmentPart) {
 		w.Header().Set("Content-Length", strconv.Itoa(len(so.data)))
 		_, err = w.Write(so.data)
-		return fmt.Errorf("could not write image segment: %w", err)
+		if err != nil {
+			return fmt.Errorf("could not write image segment: %w", err)
+		}
+		return nil
 	}
 	rep := so.meta.rep
 	seg := so.seg
